@@ -9,6 +9,7 @@ package main
 //              what:<id>, own:<id>
 
 import (
+	"os"
 	"fmt"
 	"go/ast"
 	"go/token"
@@ -117,11 +118,23 @@ func runCloserRulesF(c *Ctx, rule string, entries []closerEntry, keep func(what 
 	// a resource whose variable is found to be nil does not exist on that path;
 	// remember it at the test (loop-scoped variables are forgotten per iteration)
 	g.base.H.PostCond = func(x *Exec, cond ast.Expr, truth bool, outs []St) []St {
+		be, ok := ast.Unparen(cond).(*ast.BinaryExpr)
+		if !ok || (be.Op != token.EQL && be.Op != token.NEQ) {
+			return outs
+		}
+		e := be.X
+		if isNilIdent(x.Fn.Info, be.X) {
+			e = be.Y
+		} else if !isNilIdent(x.Fn.Info, be.Y) {
+			return outs
+		}
 		for i := range outs {
-			for k, id := range outs[i].m {
-				if strings.HasPrefix(k, "rc:") && outs[i].Get("r:"+id) == "open" && outs[i].Get("n:"+k[3:]) == "nil" {
-					outs[i] = outs[i].Set("r:"+id, "absent")
-				}
+			t, ok := g.base.Term(x, e, outs[i])
+			if !ok {
+				continue
+			}
+			if id := outs[i].Get("rc:" + t); id != "" && outs[i].Get("r:"+id) == "open" && outs[i].Get("n:"+t) == "nil" {
+				outs[i] = outs[i].Set("r:"+id, "absent")
 			}
 		}
 		return outs
@@ -596,15 +609,15 @@ func (g *closerRules) exit(x *Exec, ret *ast.ReturnStmt, s St) {
 		pos = ret.Pos()
 	}
 	errNil := RetNil(x.Fn, s, -1)
+	if os.Getenv("VCHECK_DEBUG_CLOSER") != "" && strings.HasSuffix(x.Fn.Name, os.Getenv("VCHECK_DEBUG_CLOSER")) {
+		fmt.Println("EXIT", g.c.P.Pos(pos), s.String())
+	}
 	for _, id := range ids {
 		v := s.Get("r:" + id)
-		// the resource is nil on this path if every name bound to it is known nil
+		// A resource whose variable was found nil is marked absent where the
+		// test happened (PostCond); nil-ness at the exit itself says nothing:
+		// `return nil, err` overwrites a named result that still holds it.
 		isNil := false
-		for k, rid := range s.m {
-			if strings.HasPrefix(k, "rc:") && rid == id && s.Get("n:"+k[3:]) == "nil" {
-				isNil = true
-			}
-		}
 		what, name := s.Get("what:"+id), s.Get("name:"+id)
 		if g.keep != nil && !g.keep(what) {
 			continue
